@@ -105,6 +105,7 @@ def classify(b, local, fault_variants=("Err",), depth=0, seen=None):
         return [Outcome("unknown", "cycle")]
     seen = seen | {local}
     outs = []
+    peeks = []
     us = build_uses(b).get(local, [])
     if local == 0:
         return [Outcome("returned", "is the function's return value")]
@@ -173,8 +174,11 @@ def classify(b, local, fault_variants=("Err",), depth=0, seen=None):
                 dst = st["pl"]
                 if not dst["p"]:
                     sub = classify(b, dst["l"], fault_variants, depth + 1, seen)
-                    # a borrow that is only inspected does not consume the value: ignore 'discarded' from is_ok etc.
-                    outs += [o for o in sub]
+                    # a borrow that is only inspected (`r.is_err()`) does not consume the value: what happens to the value is decided by its
+                    # other uses; if there are none, the inspection is all that ever looked at it
+                    PEEK = ("Result::is_ok", "Result::is_err", "Option::is_some", "Option::is_none")
+                    peeks += [o for o in sub if o.kind == "discarded" and o.detail in PEEK]
+                    outs += [o for o in sub if not (o.kind == "discarded" and o.detail in PEEK)]
             elif u["proj"]:
                 # payload access, handled below through discr
                 pass
@@ -204,6 +208,8 @@ def classify(b, local, fault_variants=("Err",), depth=0, seen=None):
                             outs.append(Outcome("handled", "%s payload stored" % fv, x["st"].get("span"), via=["match"]))
             else:
                 outs.append(Outcome("discarded", "matched, but the %s payload is never read" % fv))
+    if not outs and peeks:
+        outs = peeks
     if not outs:
         outs.append(Outcome("unknown", "no recognised consumer"))
     return outs
